@@ -14,6 +14,7 @@ import (
 
 	"github.com/protobom/protobom/pkg/formats"
 	"github.com/protobom/protobom/pkg/native"
+	_ "github.com/protobom/protobom/pkg/native/serializers/beta" // registers the SPDX 3 serializer
 	"github.com/protobom/protobom/pkg/sbom"
 	"github.com/protobom/protobom/pkg/writer"
 	"google.golang.org/protobuf/proto"
@@ -24,8 +25,12 @@ import (
 // nil element of a repeated message field) — in sequences on the shared registry, so that hidden
 // state across serializations shows.
 
+// SPDX3JSON: the experimental serializer of pkg/native/serializers/beta registers itself under this
+// name when the package is linked in (the harness imports it for that reason)
+const SPDX3JSON = formats.Format("text/spdx+json;version=3.0")
+
 var serFormats = []formats.Format{formats.SPDX23JSON, formats.CDX10JSON, formats.CDX11JSON, formats.CDX12JSON,
-	formats.CDX13JSON, formats.CDX14JSON, formats.CDX15JSON}
+	formats.CDX13JSON, formats.CDX14JSON, formats.CDX15JSON, SPDX3JSON}
 
 // nilPaths lists the places of a document where a nil can be put: pointer-typed fields and the
 // elements of slices of pointers (by path from the document).
